@@ -316,6 +316,11 @@ func (h *dbHarness) iterOp(obj *iterObj, op *DBOp) {
 	it, m := obj.it, obj.m
 	mode := op.Mode
 	key := op.Key
+	if obj.snap != nil && len(obj.snap.excised) > 0 && (mode == "seekgelimit" || mode == "seekltlimit" || mode == "nextlimit" || mode == "prevlimit") {
+		// positions of a classic snapshot's iterator inside later-excised spans
+		// are exempt (C03), so limit pauses cannot be judged either
+		return
+	}
 	absolute := mode == "first" || mode == "last" || mode == "seekge" || mode == "seeklt" || mode == "seekprefixge" ||
 		mode == "seekgelimit" || mode == "seekltlimit" || mode == "setbounds" || mode == "setopts"
 	if m.NeedSeek && !absolute {
